@@ -176,3 +176,73 @@ pub fn pay_reply_json(hash: &str, status: &str, preimage: u64, warning: bool) ->
     if warning { v["warning_partial_completion"] = json!("Some parts of the payment are not yet completed, but we have the confirmation from the recipient."); }
     v
 }
+
+// ---------------------------------------------------------------------------------------------
+// Unix-socket transport: what `cln_rpc::ClnRpc::new(path)` talks to (one connection per call,
+// `\n\n`-terminated JSON both ways).
+// ---------------------------------------------------------------------------------------------
+use tokio::io::{AsyncReadExt, AsyncWriteExt};
+
+async fn handle_conn(node: Node, mut stream: tokio::net::UnixStream) {
+    let mut buf: Vec<u8> = Vec::new();
+    let mut tmp = [0u8; 4096];
+    let req: Value = loop {
+        match stream.read(&mut tmp).await {
+            Ok(0) | Err(_) => return,
+            Ok(n) => {
+                buf.extend_from_slice(&tmp[..n]);
+                if let Some(pos) = buf.windows(2).position(|w| w == b"\n\n") {
+                    match serde_json::from_slice::<Value>(&buf[..pos]) { Ok(v) => break v, Err(_) => return }
+                }
+            }
+        }
+    };
+    let id = req["id"].clone();
+    let method = req["method"].as_str().unwrap_or("").to_string();
+    let params = req["params"].clone();
+    let reply_fut = park(&node, &method, params);
+    tokio::pin!(reply_fut);
+    // wait for the scheduler's reply, or for the client to hang up (its future was dropped)
+    let reply = loop {
+        tokio::select! {
+            r = &mut reply_fut => break r,
+            n = stream.read(&mut tmp) => { match n { Ok(0) | Err(_) => return, _ => {} } }
+        }
+    };
+    let msg = match reply {
+        Ok(v) => json!({"jsonrpc": "2.0", "id": id, "result": v}),
+        Err((code, message)) => json!({"jsonrpc": "2.0", "id": id, "error": {"code": code, "message": message}}),
+    };
+    let mut out = msg.to_string().into_bytes();
+    out.extend_from_slice(b"\n\n");
+    let _ = stream.write_all(&out).await;
+    let _ = stream.flush().await;
+    node.lock().unwrap().activity += 1;
+}
+
+/// Start the fake lightningd on `path` inside the current runtime.
+pub fn listen(node: Node, path: &str) -> tokio::task::JoinHandle<()> {
+    let _ = std::fs::remove_file(path);
+    let listener = tokio::net::UnixListener::bind(path).expect("bind rpc socket");
+    tokio::spawn(async move {
+        loop {
+            match listener.accept().await {
+                Ok((stream, _)) => { node.lock().unwrap().activity += 1; tokio::spawn(handle_conn(node.clone(), stream)); }
+                Err(_) => return,
+            }
+        }
+    })
+}
+
+/// Spin until nothing has happened on the node for `quiet` consecutive yields (virtual time frozen).
+pub async fn quiesce(node: &Node, quiet: u32) {
+    let mut last = node.lock().unwrap().activity;
+    let mut calm = 0u32;
+    let mut total = 0u64;
+    while calm < quiet && total < 200_000 {
+        tokio::task::yield_now().await;
+        total += 1;
+        let now = node.lock().unwrap().activity;
+        if now != last { last = now; calm = 0; } else { calm += 1; }
+    }
+}
